@@ -28,7 +28,7 @@ import (
 	"github.com/cnotch/xlog"
 )
 
-const c13SDP = "v=0\r\no=- 0 0 IN IP4 127.0.0.1\r\ns=No Name\r\nc=IN IP4 127.0.0.1\r\nt=0 0\r\n" +
+const c13SDP = "v=0\r\no=- 0 0 IN IP4 127.0.0.1\r\ns=摄像头 Nº1 — caméra\r\nc=IN IP4 127.0.0.1\r\nt=0 0\r\n" +
 	"m=video 0 RTP/AVP 96\r\na=rtpmap:96 H264/90000\r\na=fmtp:96 packetization-mode=1; sprop-parameter-sets=Z2QAH6zZQFAFuhAAAAMAEAAAAwPI8YMZYA==,aO+8sA==; profile-level-id=64001F\r\na=control:streamid=0\r\n" +
 	"m=audio 0 RTP/AVP 97\r\na=rtpmap:97 MPEG4-GENERIC/44100/2\r\na=fmtp:97 profile-level-id=1;mode=AAC-hbr;sizelength=13;indexlength=3;indexdeltalength=3; config=121056E500\r\na=control:streamid=1\r\n"
 
